@@ -10,7 +10,7 @@
   Two rules are modelled: `Rule.asCoded` (what /repo does today) and `Rule.repaired`
   (`feature_key is None` instead of `not feature_key`; `\Z` instead of `$`).
 -/
-import BioCantor.Proofs.QualMerge
+import BioCantor.Proofs.QualGroup
 namespace BioCantor.Props.C18
 open BioCantor BioCantor.Spec.Qual BioCantor.Model.Qual BioCantor.Proofs.Qual
 
@@ -130,6 +130,23 @@ theorem merge_idem (a : QDict) (ha : keysDistinct a = true) (k : Str) :
     lookupExact k (mergeQualifiers a a) = (lookupExact k a).map fun vs => sortStrs (setUpdate [] vs) :=
   merge_self_lookup a ha k
 
+/-- T5: locus-tag grouping (the stable sort by tag + `itertools.groupby` + the per-run loop) — for EVERY record:
+    it raises exactly when some tag carries two gene features; otherwise there is one group per distinct tag, in
+    increasing tag order, holding that tag's gene feature, all its CDS features and all its transcript features
+    (one arbitrary transcript when the tag has several transcripts AND several CDSs). -/
+theorem group_spec (fs : List Feat) : okGroup fs (ansQ (groupByLocusTag fs)) = true :=
+  group_ok fs
+
+/-- T5b: ORDER INDEPENDENCE of the grouping — permuting the feature records of a GenBank record (every tag a
+    single transcript-or-CDS chain) changes nothing but the order of the children inside a group: both records
+    are refused, or both yield groups that agree element-wise in tag and gene feature and, up to order, in
+    transcript and CDS features. -/
+theorem group_order_independent (fs fs' : List Feat) (hp : fs.Perm fs')
+    (hc : ∀ f ∈ fs, singleChain fs f.tag = true) :
+    (ansQ (groupByLocusTag fs) = none ∧ ansQ (groupByLocusTag fs') = none) ∨
+    (∃ gs gs', groupByLocusTag fs = .ok gs ∧ groupByLocusTag fs' = .ok gs' ∧ GroupsEquiv gs gs') :=
+  group_perm hp hc
+
 -- non-vacuity of the hypotheses: a dictionary in the domain with distinct ranks, mixed case, look-alikes
 -- and a note; and one satisfying the `_partial` restriction
 example : extractDomain [("Gene".toList, ["g".toList]), ("ID".toList, ["i".toList, "j".toList]),
@@ -138,6 +155,10 @@ example : ranksDistinct nameOrder [("Gene".toList, ["g".toList]), ("LABEL".toLis
     ("feature_name".toList, ["f".toList])] = true := by decide
 example : ∀ e ∈ ([("Gene".toList, ["g".toList]), ("id".toList, ["i".toList])] : QDict),
     rank nameOrder e.1 ≠ some 0 ∧ rank idOrder e.1 ≠ some 0 ∧ e.1.getLast? ≠ some '\n' := by decide
+example : ∀ f ∈ ([⟨"b".toList, .transcript, 0⟩, ⟨"a".toList, .cds, 1⟩, ⟨"b".toList, .gene, 2⟩, ⟨"a".toList, .cds, 3⟩,
+    ⟨"b".toList, .transcript, 4⟩] : List Feat),
+    singleChain [⟨"b".toList, .transcript, 0⟩, ⟨"a".toList, .cds, 1⟩, ⟨"b".toList, .gene, 2⟩, ⟨"a".toList, .cds, 3⟩,
+      ⟨"b".toList, .transcript, 4⟩] f.tag = true := by decide
 example : keysDistinct [("a".toList, ["y".toList, "x".toList]), ("b".toList, [])] = true := by decide
 
 end BioCantor.Props.C18
